@@ -32,6 +32,7 @@ def cases(tier, rng, boost=1):
     yield _mk([[0, 1, 2, 3, 4] * 5], [1], None, src='corpus', kind='periodic')                                          # D9
     yield _mk([[0, 1, 2, 3, 4, 5] * 5], [1, 2], None, src='corpus', kind='periodic')
     yield _mk([[0, 1, 0, 1, 1, 0, 0, 1], [2, 3, 3, 2, 2, 3, 2, 2, 3]], [1, 2], None, src='corpus', kind='reducible')
+    yield _mk([[0, 1, 1, 0, 1], [0, 0, 1, 0, 1, 1, 0, 0, 0, 1, 0, 1, 1, 1, 0, 1, 0, 0, 1, 1]], [8, 1, 2], None, src='corpus', kind='shortfirst')
     n = {'quick': 250, 'thorough': 4000, 'search': 800}[tier] * boost
     for _ in range(n):
         kind = rng.choice(['chain', 'chain', 'alternating', 'cycle', 'periodic', 'reducible', 'lumped', 'solver'])
@@ -59,6 +60,10 @@ def cases(tier, rng, boost=1):
         if nstates < 2:
             continue
         lags = rng.sample([1, 2, 3, 4], rng.randint(1, 3))
+        if kind == 'chain' and rng.random() < 0.3:
+            idx = [idx[0][:rng.randint(2, 6)]] + idx          # a short leading trajectory and a large lag listed FIRST
+            trajs = gen.relabel(idx, labs)
+            lags = [rng.randint(6, 9)] + lags
         nts = rng.choice([None] + list(range(1, nstates)))
         if kind == 'lumped' and nstates >= 3:
             occ = sorted({x for t in trajs for x in t})
